@@ -365,9 +365,17 @@ var templates = map[string]func(n, m int) string{
 		if n == 0 {
 			body = []string{"return", "", "return nil"}[m%3]
 		}
+		// the vararg twin may use the implicit arg table (a hidden local right above the parameters) as its only extra register
+		vbody := body
+		if m%16 >= 12 {
+			vbody = []string{"return arg", last + " = arg return " + last, "return arg == 1", "return arg.n"}[m%4]
+			if n == 0 {
+				vbody = []string{"return arg", "g = arg", "return arg == 1", "return arg.n"}[m%4]
+			}
+		}
 		var b strings.Builder
 		fmt.Fprintf(&b, "local function f(%s) %s end\n", plist, body)
-		fmt.Fprintf(&b, "local function v(%s%s...) %s end\n", plist, map[bool]string{true: "", false: ", "}[n == 0], body)
+		fmt.Fprintf(&b, "local function v(%s%s...) %s end\n", plist, map[bool]string{true: "", false: ", "}[n == 0], vbody)
 		b.WriteString("local function t1(...) return f(...) end\nlocal function t2(a, b) return f(a, b) end\nlocal function t3(a, b, c) local x = a return v(x, b, c, a) end\n")
 		b.WriteString("return f(1, 2, 3), t1(1, 2), t2(1, 2), t3(1, 2, 3), {f(1, 2)}, (f(1, 2)), pcall(f, 1, 2), v(1), select('#', v(1, 2, 3))\n")
 		return b.String()
@@ -412,7 +420,7 @@ var grids = []grid{
 	{"chains", []int{1, 2, 50, 100, 199, 200, 201, 255, 256, 300, 1000}, []int{0, 1, 2, 3}, false},
 	{"many_targets", []int{1, 2, 3, 100, 198, 199, 200, 201, 202, 254, 255, 256, 257, 508, 509, 510, 511, 512, 513, 600, 767, 768, 769, 1023, 1024, 1025}, []int{0, 1, 2, 3, 4, 5, 6, 7, 8}, false},
 	{"genfor_vars", []int{1, 2, 3, 4, 5, 6, 7, 10, 50, 150, 190, 196}, []int{0, 1, 2, 3, 4, 5}, false},
-	{"bare_functions", []int{0, 1, 2, 3, 4, 5, 10, 100, 199, 200}, []int{0, 1, 2, 3, 4, 5, 6, 7, 8, 9, 10, 11}, false},
+	{"bare_functions", []int{0, 1, 2, 3, 4, 5, 10, 100, 198, 199, 200}, []int{0, 1, 2, 3, 4, 5, 6, 7, 8, 9, 10, 11, 12, 13, 14, 15}, false},
 	{"upvalues", []int{1, 30, 59, 60, 61, 84, 85, 86, 100, 127, 128, 129, 150, 190}, []int{0, 1, 2}, false},
 }
 
